@@ -157,9 +157,41 @@ class Facts:
                 return st
             return st
 
+        def ternary(st, e):
+            """x = c ? a : b: one state per arm, each with what c says on that side (the smaller-of-two idiom keeps its bound)"""
+            co = e.kid(1).strip()
+            lhs = norm(e.kid(0))
+            outs = []
+            for kind, val in ((True, norm(co.kid(1))), (False, norm(co.kid(2)))):
+                add = []
+                for op, L, R, _, _ in cond_atoms(co.kid(0), kind):
+                    if any(t[0] == "call" and t[1] != "strlen" for t in subterms(L)) or any(t[0] == "call" and t[1] != "strlen" for t in subterms(R)):
+                        continue
+                    add += self.mk(op, L, R)
+                n = st | frozenset(add)
+                if not self.consistent(n):
+                    continue
+                while val[0] == "cast":
+                    val = val[-1]
+                if val == lhs:
+                    outs.append(n)
+                    continue
+                n = self._kill(n, lhs)
+                if not mentions(val, lhs) and not any(t[0] == "call" for t in subterms(val)):
+                    n = n | frozenset(self.mk("==", lhs, val))
+                outs.append(n)
+            return outs
+
         def transfer(S, e):
             if not (e.is_assign or e.is_incdec or e.cls in ("CallExpr", "DeclStmt")):
                 return S
+            if e.is_assign and e.op == "=" and e.kid(1) is not None and e.kid(1).strip() is not None and e.kid(1).strip().cls == "ConditionalOperator" \
+                    and len(e.kid(1).strip().kids) == 3 and all(k is not None for k in e.kid(1).strip().kids):
+                out = set()
+                for st in S:
+                    out.update(ternary(st, e))
+                if out:
+                    return frozenset(out)
             return frozenset(transfer1(st, e) for st in S)
 
         def refine(S, cond, kind):
